@@ -5,4 +5,5 @@ cd "$(dirname "$0")"
 export CARGO_NET_OFFLINE=true
 (cd driver && cargo build --release --offline 2>&1 | tail -3)
 python3 rules/extract.py >/dev/null
+python3 -c "import sys; sys.path.insert(0,'rules'); import witness; d=witness.run(); assert d['results'], d.get('raw')" 
 echo "setup ok"
